@@ -348,15 +348,16 @@ type blockErr struct{ id int }
 func (e *blockErr) Error() string { return fmt.Sprintf("block error #%d", e.id) }
 
 type run struct {
-	c       *Case
-	e       *env.Env
-	faults  []*simdrv.Fault
-	worlds  []world
-	relaxed bool // a SAVEPOINT / ROLLBACK TO fault was delivered
-	viol    *core.Violation
-	nextID  int
-	failed  int // blocks that failed or panicked
-	sps     [][]spEntry
+	overflow bool // the model had to drop possible states: it no longer judges this run
+	c        *Case
+	e        *env.Env
+	faults   []*simdrv.Fault
+	worlds   []world
+	relaxed  bool // a SAVEPOINT / ROLLBACK TO fault was delivered
+	viol     *core.Violation
+	nextID   int
+	failed   int // blocks that failed or panicked
+	sps      [][]spEntry
 	// cancellation runs: the lock-step model is off (every statement after the
 	// cancellation fails), the oracle is "nothing durable and an error reported"
 	cancelMode   bool
@@ -376,7 +377,7 @@ type spEntry struct {
 }
 
 func (r *run) fail(class, key, detail string) {
-	if r.cancelMode {
+	if r.cancelMode || r.overflow {
 		return
 	}
 	if r.viol == nil {
@@ -436,11 +437,29 @@ func (r *run) pop(keep, both bool) {
 			out = append(out, k[:n-1])
 		}
 	}
-	if len(out) > 16 {
-		out = out[:16]
-	}
-	r.worlds = out
+	r.worlds = r.limit(out)
 }
+
+// limit removes duplicate worlds; more than maxWorlds different ones end the model's
+// say for this run (dropping some could drop the true one).
+func (r *run) limit(ws []world) []world {
+	seen := map[string]bool{}
+	var out []world
+	for _, w := range ws {
+		k := fmt.Sprint(w)
+		if !seen[k] {
+			seen[k] = true
+			out = append(out, w)
+		}
+	}
+	if len(out) > maxWorlds {
+		r.overflow = true
+		out = out[:maxWorlds]
+	}
+	return out
+}
+
+const maxWorlds = 64
 
 // filter keeps the worlds for which ok holds; none left is a violation.
 func (r *run) filter(ok func(w world) bool, class, key, detail string) {
@@ -585,8 +604,17 @@ func (r *run) writeBatches(tx *gorm.DB, st Step, where string, snap []int, out *
 			if max < 0 {
 				max = len(items)
 			}
+			if res.Error == nil {
+				// the call succeeded after all (database/sql retries a bad connection): every batch is in
+				if max == len(items) {
+					d := w.clone()
+					applyPrefix(d, len(items))
+					worlds = append(worlds, d)
+				}
+				continue
+			}
 			for n := 0; n <= max; n++ {
-				if n == len(items) && res.Error != nil && !hasType(fired, "applied_err") && !hasType(fired, "ack_lost") {
+				if n == len(items) && !hasType(fired, "applied_err") && !hasType(fired, "ack_lost") {
 					continue
 				}
 				d := w.clone()
@@ -594,10 +622,11 @@ func (r *run) writeBatches(tx *gorm.DB, st Step, where string, snap []int, out *
 				worlds = append(worlds, d)
 			}
 		}
-		if len(worlds) > 16 {
-			worlds = worlds[:16]
+		if len(worlds) == 0 {
+			r.fail("unexpected_success", where+"|batches", fmt.Sprintf("%s: CreateInBatches under %s succeeded although one of its keys exists in every state the model allows", where, st.K))
+			return res.Error
 		}
-		r.worlds = worlds
+		r.worlds = r.limit(worlds)
 		r.relaxed = r.relaxed || res.Error != nil
 		return res.Error
 	}
